@@ -129,6 +129,73 @@ def _flat(r):
     return [r["err"]] + [r["corr_err"][k] for k in sorted(r["corr_err"])]
 
 
+def _full(r):
+    """values and errors of a return value of integrated_flow / differential_flow as a flat list of floats / None"""
+    if isinstance(r, tuple) and len(r) == 2 and not isinstance(r[0], (list, tuple, np.ndarray)):
+        r = [r]
+    out = []
+    for b in r:
+        if len(b) == 0:
+            out.append(None)
+        else:
+            out += [float(np.real(b[0])), float(np.imag(b[0])), float(np.real(b[1]))]
+    return out
+
+
+def _history(case, rng):
+    """ONE QCumulantFlow object asked one to three other questions about the SAME list objects first (integrated flow, the
+    differential flow with another selector / other bins / the same ones): the answer to the final question is the one a fresh
+    object gives (nothing but the random reaction planes - which the estimate does not depend on - may differ between calls)"""
+    from sparkx.flow.QCumulantFlow import QCumulantFlow
+    import warnings
+
+    def ask(obj, evs, q):
+        if q[0] == "int":
+            return obj.integrated_flow(evs)
+        return obj.differential_flow(evs, list(q[2]), q[1], q[3])
+
+    final = ("int",) if case["mode"] == "int" else ("diff", case["sel"], case["bins"], case["poi"])
+    pool = [("int",), ("diff", "pT", [0.0, 1.0, 3.0], None), ("diff", "rapidity", [-2.0, 0.0, 2.0], None),
+            ("diff", "pseudorapidity", [-3.0, 3.0], None), final]
+    if case["k"] == 6:
+        pool = [("int",)]
+    before = [rng.choice(pool) for _ in range(rng.choice([1, 1, 2, 3]))]
+    with np.errstate(all="ignore"), warnings.catch_warnings():
+        warnings.simplefilter("ignore")
+        try:
+            random.seed(case.get("seed", 0))
+            fresh = _full(ask(QCumulantFlow(n=case["n"], k=case["k"], imaginary=case["imag"]), _events(case), final))
+            ref = QCumulantFlow(n=case["n"], k=case["k"], imaginary=case["imag"]).integrated_flow(_events(case))[0]
+        except (ValueError, TypeError, IndexError, UnboundLocalError, ZeroDivisionError):
+            return None
+        if not np.isfinite(ref) or abs(ref) ** case["k"] < 1e-6:
+            return None          # the reference cumulant (nearly) vanishes: its roots amplify the rounding of the random planes
+        evs = _events(case)
+        obj = QCumulantFlow(n=case["n"], k=case["k"], imaginary=case["imag"])
+        for q in before:
+            try:
+                ask(obj, evs, q)
+            except (ValueError, TypeError, IndexError, UnboundLocalError, ZeroDivisionError):
+                pass
+        try:
+            again = _full(ask(obj, evs, final))
+        except Exception as e:
+            return (f"QCumulantFlow(n={case['n']}, k={case['k']}): {final} raises {type(e).__name__} on an object asked {before} about "
+                    f"the same events before; a fresh object returns {fresh}")
+    if len(again) != len(fresh) or not all(_same_val(x, y) for x, y in zip(fresh, again)):
+        return (f"QCumulantFlow(n={case['n']}, k={case['k']}): {final} on an object asked {before} about the same events before "
+                f"returns {again}; a fresh object returns {fresh}")
+    return None
+
+
+def _same_val(a, b):
+    if a is None or b is None:
+        return a is None and b is None
+    if not (math.isfinite(a) and math.isfinite(b)):
+        return (math.isnan(a) and math.isnan(b)) or a == b
+    return abs(a - b) <= 1e-6 * (abs(a) + abs(b)) + 1e-9
+
+
 def oracle(case):
     """metamorphic statement of C12 for the Q-cumulant errors on the real code: rotating every event by its own angle,
     reordering the particles of every event and reordering the events leaves every returned error unchanged"""
@@ -141,6 +208,9 @@ def oracle(case):
     perm = dict(case, events=[rng.sample(ev, len(ev)) for ev in case["events"]])
     perm["events"] = rng.sample(perm["events"], len(perm["events"]))
     per = _flat(run_impl(perm))
+    hist = _history(case, rng)
+    if hist:
+        return hist
     for what, other in (("rotating every event by its own angle", rot), ("reordering particles and events", per)):
         if len(other) != len(base) or not all((isinstance(x, tuple) and x == y) or (not isinstance(x, tuple) and not isinstance(y, tuple) and _same(x, y))
                                               for x, y in zip(base, other)):
